@@ -1,6 +1,6 @@
 from vlib import common as C, gens as G
 from vlib.driver import Prop
-from props import c03, c12, c13
+from props import c03, c12, c13, c15
 
 
 class P(Prop):
@@ -23,12 +23,13 @@ class P(Prop):
         self.c03.NAN = True
         self.c12 = c12.P()
         self.c13 = c13.P()
+        self.c15 = c15.P()
 
     def cases(self, rng, tier):
         n = 80 if tier == "quick" else 900
         out = []
         for i in range(n):
-            k = rng.randint(1, 8)
+            k = rng.randint(1, 8) if rng.random() < 0.8 else rng.randint(9, 60)
             es, sg = G.tag_segs(rng, k)
             xs = c03.history(rng, es, rng.randint(2, 30), nan=True)
             r = rng.random()
@@ -56,6 +57,9 @@ class P(Prop):
             out.append(dict(op="evaluate_v", ty=ty, segs=[], xs=[0], meta={"class": "empty"}))
         # every operation on well-formed input: reuse the structured streams of the operator properties
         out += self.c13.cases(rng, "quick")
+        out += [c for c in self.c15.cases(rng, "quick") if c["op"] == "pw_translate_polyn"]
+        for cs in ([], [1.5], [0.0, 2.0, -1.0]):
+            out.append(dict(op="polyn_translate", cs=[C.bits(c) for c in cs], s=C.bits(2.5), meta={"class": "polyn_translate/%d" % len(cs)}))
         return out
 
     def coq_term(self, case, h):
@@ -69,6 +73,10 @@ class P(Prop):
         if op == "pw_eval":
             return "run_pw_eval [] [] %s %s %s" % (C.kname("Segment<%s>::evaluate" % case["ty"]),
                                                    C.zlistlist(case["segs"]), C.zlist(case["xs"]))
+        if op == "pw_translate_polyn":
+            return self.c15.coq_term(case, h)
+        if op == "polyn_translate":
+            return "run_polyn_translate %s %d" % (C.zlist(case["cs"]), case["s"])
         if op == "linear":
             return "run_linear [] [] %s %s" % (C.kname("linear::incr_linear"), C.zlistlist(case["knots"]))
         if op == "spline":
@@ -82,6 +90,10 @@ class P(Prop):
             return self.c03.oracle(case, h)
         if op in ("pw_add", "pw_sub"):
             return self.c13.oracle(case, h)
+        if op == "pw_translate_polyn":
+            return self.c15.oracle(case, h)
+        if op == "polyn_translate":
+            return "PolyN::translate panicked on %d coefficients: %s" % (len(case["cs"]), h.get("msg")) if h["r"] == "PANIC" else None
         if op in ("pw_eval", "evaluate_v"):
             if not case["segs"]:
                 return None if h["r"] == "PANIC" else "empty piecewise did not panic"
